@@ -1266,6 +1266,11 @@ fn proof_from_another_point_of_view(
         return None;
     }
     let m = packed::LightClientMessageReader::from_compatible_slice(data).ok()?;
+    if op % 3 == 1 && rng.chance(1, 2) {
+        if let Some(x) = forge_witness(&m, rng) {
+            return Some(x);
+        }
+    }
     if substitute {
         return proof_for_another_question(sim, own, &m, rng);
     }
@@ -1287,6 +1292,39 @@ fn proof_from_another_point_of_view(
         }
         _ => None,
     }
+}
+
+/// The honest transactions proof with the witnesses of one delivered transaction replaced: the
+/// transaction hash (and with it the Merkle proof) does not cover them.
+fn forge_witness(m: &packed::LightClientMessageReader, rng: &mut Rng) -> Option<(Bytes, String)> {
+    if let packed::LightClientMessageUnionReader::SendTransactionsProof(r) = m.to_enum() {
+        if r.count_extra_fields() > 0 {
+            return None; // keep to the v0 layout
+        }
+        let msg = r.to_entity();
+        let mut fbs: Vec<packed::FilteredBlock> = msg.filtered_blocks().into_iter().collect();
+        if fbs.is_empty() {
+            return None;
+        }
+        let bi = rng.usize_below(fbs.len());
+        let mut txs: Vec<packed::Transaction> = fbs[bi].transactions().into_iter().collect();
+        if txs.is_empty() {
+            return None;
+        }
+        let ti = rng.usize_below(txs.len());
+        let n = rng.range(1, 40) as usize;
+        let mut w = vec![0u8; n];
+        rng.fill(&mut w);
+        let witnesses = vec![Bytes::from(w).pack()];
+        txs[ti] = txs[ti].clone().as_builder().witnesses(witnesses.pack()).build();
+        fbs[bi] = fbs[bi].clone().as_builder().transactions(txs.pack()).build();
+        let out = msg
+            .as_builder()
+            .filtered_blocks(packed::FilteredBlockVec::new_builder().set(fbs).build())
+            .build();
+        return Some((lc_msg(out).as_bytes(), format!("witnesses of delivered transaction {} of block {} forged", ti, bi)));
+    }
+    None
 }
 
 fn proof_for_another_question(
